@@ -80,6 +80,8 @@ def native_build(name, src):
 
 
 def family_of(unit_id):
+    if re.match(r'btr\.\w+\.copy_assign$', unit_id):
+        return {'name': 'c19', 'src': 'replay_c19.cpp', 'argv': lambda u, i: []}
     for pre, fam in FAMILIES.items():
         if unit_id.startswith(pre):
             return fam
@@ -119,7 +121,7 @@ def make_replay(verif, pid, r, oid):
     inputs = harness_inputs(trace)
     fam = family_of(u.id)
     native = None
-    if fam and (inputs or oid.endswith('.reachability.normal_return') or fam.get('src') in ('replay_bt.cpp', 'replay_fp.cpp', 'replay_ili.cpp', 'replay_nest.cpp', 'replay_dname.cpp', 'replay_ip.cpp', 'replay_c16.cpp', 'replay_c16f.cpp', 'replay_gz.cpp')):
+    if fam and (inputs or oid.endswith('.reachability.normal_return') or fam.get('src') in ('replay_bt.cpp', 'replay_fp.cpp', 'replay_ili.cpp', 'replay_nest.cpp', 'replay_c19.cpp', 'replay_dname.cpp', 'replay_ip.cpp', 'replay_c16.cpp', 'replay_c16f.cpp', 'replay_gz.cpp')):
         native = run_native(verif, fam, u.id, inputs)
     confirmed = bool(native and native.get('ran') and native.get('misbehaves'))
     fn = re.sub(r'[^A-Za-z0-9_.@-]', '_', '%s-%s-%s.json' % (pid, uid, oid))
